@@ -46,8 +46,11 @@ EXPLANATION = (
     " result extraction, the component extract_results hooks and the active-lookup choice equals one of the solver's own "
     "mode classes, which are read from pipeflow's dispatch: the modes that run a hydraulic stage, the modes that run a "
     "thermal stage, or a single mode; a list that lost or gained a member (thermal results skipped in 'bidirectional') is"
-    ' reported with the list found. Not decided: the graph-search result itself and equality with the reduced network '
-    '(runtime).')
+    ' reported with the list found. (R4.11) what a branch component writes into its own pit rows has one entry per row of'
+    ' its element table, in or out of service: in the forward substitution of create_pit_branch_entries of every branch '
+    'component no value or guard of an own-row entry contains a column of a row-filtered table (net[tbl][in_service]) -- '
+    'with one element out of service such a store raises, i.e. an outage pattern makes the calculation fail. Not decided:'
+    ' the graph-search result itself and equality with the reduced network (runtime).')
 ASSUMPTIONS = ["scipy.sparse.csgraph.breadth_first_order returns the nodes reachable from the start node",
                "numpy arithmetic propagates NaN", "transient=False"]
 TECHNIQUE = "per-class value numbering of extract_results with selector/NaN-strictness analysis; CFG dominance; structural agreement checks"
@@ -830,4 +833,52 @@ def r4_10(run):
     run.floor(2)        # the mode-classes obligation and at least one site (sites may be merged into one helper)
 
 
-RULES = [("R4.1", r4_1), ("R4.2", r4_2), ("R4.3", r4_3), ("R4.4", r4_4), ("R4.5", r4_5), ("R4.7", r4_7), ("R4.8", r4_8), ("R4.9", r4_9), ("R4.10", r4_10)]
+def r4_11(run):
+    """out-of-service elements keep their rows in the internal tables (they are only marked inactive), so what a component writes
+    into *its own* branch rows has one entry per row of its element table: a mask or a value array taken from a row-filtered copy
+    of the table (`net[tbl][net[tbl].in_service.values]`) has fewer entries as soon as one element is out of service -- the store
+    raises (or pairs values with the wrong rows), i.e. an outage pattern makes the calculation fail instead of reporting NaN for
+    that element.  Decided on the forward substitution of create_pit_branch_entries of every branch component: no value or guard
+    of an own-row pit entry contains a filtered table column."""
+    ix = run.index
+    n = 0
+
+    def filtered_cols(a, acc):
+        if isinstance(a, tuple):
+            if len(a) > 4 and a[0] == "sym" and a[1] == "tbl":
+                acc.add("net.%s.%s[<row filter>]" % (a[2], a[3]))
+            for x in a:
+                filtered_cols(x, acc)
+        return acc
+    for c in ix.components():
+        if not ix.is_subclass(c, "BranchComponent"):
+            continue
+        f = ix.lookup_method(c, "create_pit_branch_entries")
+        if f is None:
+            continue
+        try:
+            ki, k = hook_summary(ix, c, "create_pit_branch_entries", {"option:transient": False, "any:*": True}, partial=True)
+        except (Unsupported, AnalysisError) as ex:
+            raise AnalysisError("unrecognised shape: %s.create_pit_branch_entries cannot be summarised: %s" % (c.name, str(ex)[:120]))
+        run.analysed(f)
+        bad = {}
+        for key_, v in ki.pit.items():
+            if key_[0] != "branch_pit" or key_[1] != "i":
+                continue
+            acc = set()
+            for gd, p in tonum(v).cases:
+                for a in p.atoms():
+                    filtered_cols(a, acc)
+                for a, _pol in gd:
+                    filtered_cols(a, acc)
+            if acc:
+                bad[key_[3]] = sorted(acc)
+        n += 1
+        run.ob("%s.create_pit_branch_entries|own-rows-from-unfiltered-table" % c.name, not bad,
+               "the own branch rows of %s (one per table row, in or out of service) are not filled from a row-filtered table" % c.name,
+               run.where(f, f.node), detail="; ".join("%s <- %s" % (k_, ", ".join(v_)) for k_, v_ in sorted(bad.items()))[:300] if bad else None)
+    run.stat("branch_hooks_checked_for_filtered_tables", n)
+    run.floor(8)
+
+
+RULES = [("R4.1", r4_1), ("R4.2", r4_2), ("R4.3", r4_3), ("R4.4", r4_4), ("R4.5", r4_5), ("R4.7", r4_7), ("R4.8", r4_8), ("R4.9", r4_9), ("R4.10", r4_10), ("R4.11", r4_11)]
